@@ -45,6 +45,17 @@ def cpp_struct_field_window(ck, rule, facts):
               "forward declaration, and a struct that holds another by value whose methods mention it back no longer compiles when included first" % (meth, down), C.loc(f))
 
 
+def _pat_nodes(p):
+    st = [p]
+    while st:
+        x = st.pop()
+        if isinstance(x, dict):
+            yield x
+            st.extend(v for v in x.values() if isinstance(v, (dict, list)))
+        elif isinstance(x, list):
+            st.extend(x)
+
+
 def run(ck, facts):
     core, tool, mac = facts.core, facts.tool, facts.macro
     adts = facts.all_adts()
@@ -309,6 +320,61 @@ def run(ck, facts):
     if nt < 3:
         ck.bad("R5", "macro/extern-template-floor", "only %d extern fn templates found in the macro (3 counted)" % nt)
 
+
+    # ---------------- R3 (cont.) the two header-path formatters of a backend build a type's `.d.h(pp)` and `.h(pp)` paths the same way (same directory from the
+    # namespace, same file stem): the impl header includes the decl header by the stem, and generated files are written under the one and included under the other
+    def path_recipe(fn_):
+        ops, fmts = [], []
+        for x in C.walk_inl(tool, C.fn_body(fn_), 2, exclude=[fn_["path"]]):
+            if x.get("k") == "mcall" and x.get("m") not in ("into", "as_str", "as_ref", "clone", "to_string", "to_owned", "unwrap", "deref"):
+                ops.append((x["m"], tuple(l_ for a_ in x.get("a") or [] for l_ in C.str_lits(a_))))
+            elif x.get("k") == "macro" and x.get("name") == "format":
+                fmts.append(re.sub(r"\.d(?=\.h(pp)?$)", "", re.sub(r"\{[^{}]*\}", "{}", C.macro_fmt_canon(x) or "")))
+        return sorted(ops), sorted(fmts)
+    for mod_ in ("cpp::formatter::Cpp2Formatter", "c::formatter::CFormatter"):
+        fd_, fi_ = tool.fn(mod_ + "::fmt_decl_header_path", optional=True), tool.fn(mod_ + "::fmt_impl_header_path", optional=True)
+        if fd_ is None or fi_ is None:
+            ck.bad("R3", "%s/header-path-siblings" % mod_.split("::")[0], "fmt_decl_header_path / fmt_impl_header_path not found", None)
+            continue
+        rd_, ri_ = path_recipe(fd_), path_recipe(fi_)
+        ck.expect(rd_ == ri_, "R3", "%s/header-path-siblings" % mod_.split("::")[0], "same recipe up to the `.d` infix", "fmt_decl_header_path and fmt_impl_header_path build their paths differently "
+                  "(decl: %s / impl: %s): for some types (nested namespaces, renamed types) `X.d.hpp` is written to another directory than the one `X.hpp` includes it from" %
+                  ([o for o in rd_[0] if o not in ri_[0]] + [f_ for f_ in rd_[1] if f_ not in ri_[1]], [o for o in ri_[0] if o not in rd_[0]] + [f_ for f_ in ri_[1] if f_ not in rd_[1]]), C.loc(fd_))
+
+    # ---------------- R6 (receivers) the receiver the macro writes for a trait-method wrapper is the trait's: wherever the macro takes SelfParam.reference
+    # (lifetime, mutability) apart, both parts are named and used (`&mut self` written as `&self` makes the generated `impl Trait for ..` differ from the trait: E0053)
+    mac_ = facts.macro
+    nrecv = 0
+    for f_ in mac_.fn_list:
+        if "hir" not in f_ or f_.get("dk") == "Closure":
+            continue
+        for x in C.walk(C.fn_body(f_)):
+            tests = []
+            if x.get("k") == "if" and C.strip_keep_macro(x["c"]).get("k") == "let":
+                c_ = C.strip_keep_macro(x["c"])
+                tests.append((c_.get("pat"), c_.get("init"), x["t"]))
+            elif x.get("k") == "match":
+                for arm in x["arms"]:
+                    tests.append((arm["pat"], x["s"], arm["b"]))
+            for pat, init, body_ in tests:
+                if not (isinstance(init, dict) and any(y.get("k") == "field" and y.get("n") == "reference" and "SelfParam" in (y.get("bty") or "") for y in C.walk(init))):
+                    continue
+                tups = [p_ for p_ in [pat] + list(_pat_nodes(pat)) if isinstance(p_, dict) and p_.get("k") == "tuple" and len(p_.get("sub") or []) == 2]
+                if not tups:
+                    continue
+                nrecv += 1
+                used = {lid for _, lid in C.free_locals(body_)} | {y.get("id") for y in C.walk(body_) if y.get("k") == "local"}
+                parts = []
+                for sub in tups[0]["sub"]:
+                    b_ = sub
+                    while isinstance(b_, dict) and b_.get("k") == "ref":
+                        b_ = b_.get("sub")
+                    parts.append(isinstance(b_, dict) and b_.get("k") == "bind" and b_.get("id") in used)
+                ck.expect(all(parts), "R6", "macro::%s/receiver-keeps-lifetime-and-mutability" % f_["name"], "", "the macro takes `SelfParam.reference` apart in %s but does not use its %s: "
+                          "the receiver it writes (`&self` for a `&mut self` trait method) no longer matches the trait the wrapper implements, and the expansion does not compile" %
+                          (f_["name"], "mutability" if parts and parts[0] else "lifetime"), C.loc(f_, x.get("ln")))
+    if nrecv < 1:
+        ck.bad("R6", "macro/receiver-sites-floor", "no site taking SelfParam.reference apart found in the macro (1 counted: gen_custom_trait_impl)")
 
     # ---------------- R6 callback arguments
     # (a) macro: direction of the conversion
